@@ -163,6 +163,34 @@ func c11Receivers(quick bool) []c11Recv {
 				return ro(stackage.Cond("kw", stackage.Ne, stackage.And().SetMutex().Push("x", nil, stackage.Or().Push("y"))).SetParen(true).SetEncap("'").SetID("cid").SetAuxiliary(stackage.Auxiliary{"z": 2}).SetValidityPolicy(vp))
 			}},
 			c11Recv{fmt.Sprintf("Condition/invalid/mode%d", mode), func() any { return ro(stackage.Cond("", stackage.ComparisonOperator(9), nil)) }},
+			// invalid while Err is still nil: assembled piecemeal, invalidated afterwards, failing policy, error cleared
+			c11Recv{fmt.Sprintf("Condition/half-built/mode%d", mode), func() any {
+				var h stackage.Condition
+				h.Init()
+				h.SetKeyword("kw")
+				return ro(h)
+			}},
+			c11Recv{fmt.Sprintf("Condition/failing-policy/mode%d", mode), func() any {
+				return ro(stackage.Cond("kw", stackage.Eq, "val").SetValidityPolicy(func(...any) error { return fmt.Errorf("policy says no") }))
+			}},
+			c11Recv{fmt.Sprintf("Condition/error-cleared/mode%d", mode), func() any {
+				x := stackage.Cond("", stackage.ComparisonOperator(9), nil)
+				x.SetErr(nil)
+				return ro(x)
+			}},
+			c11Recv{fmt.Sprintf("Stack-of-half-built/mode%d", mode), func() any {
+				var h stackage.Condition
+				h.Init()
+				h.SetKeyword("kw")
+				x := stackage.Cond("", stackage.ComparisonOperator(9), nil)
+				x.SetErr(nil)
+				s := stackage.And().Push("a", h, stackage.Cond("k", stackage.Eq, stackage.Or().Push(x, "b")),
+					stackage.Cond("kw", stackage.Eq, "val").SetValidityPolicy(func(...any) error { return fmt.Errorf("policy says no") }))
+				if mode == 1 {
+					s.SetReadOnly(true)
+				}
+				return s
+			}},
 			c11Recv{fmt.Sprintf("Condition/alias-expr/mode%d", mode), func() any {
 				return ro(stackage.Cond("kw", userOp{"~=", "ctx"}, StackAliasS(stackage.List().Push("p", "q"))))
 			}},
